@@ -436,6 +436,8 @@ type Listener struct {
 	CloseErr error
 	Accepts  int
 	Closes   int
+	// AcceptCalls counts entries into Accept (Serve registers its listener before the first one).
+	AcceptCalls int
 }
 
 type acceptItem struct {
@@ -468,6 +470,8 @@ func (l *Listener) PushErr(err error) {
 func (l *Listener) Accept() (net.Conn, error) {
 	l.mu.Lock()
 	defer l.mu.Unlock()
+	l.AcceptCalls++
+	l.cond.Broadcast()
 	for {
 		if l.closed {
 			return nil, net.ErrClosed
@@ -479,6 +483,15 @@ func (l *Listener) Accept() (net.Conn, error) {
 			l.cond.Broadcast()
 			return it.conn, it.err
 		}
+		l.cond.Wait()
+	}
+}
+
+// WaitAccepting blocks until Accept has been entered at least once (or the listener closed).
+func (l *Listener) WaitAccepting() {
+	l.mu.Lock()
+	defer l.mu.Unlock()
+	for l.AcceptCalls == 0 && !l.closed {
 		l.cond.Wait()
 	}
 }
